@@ -112,8 +112,7 @@ def check_stmt_kinds(stmts, where, allow_last_return=True):
         else:
             raise TranslateError(where, f"unsupported statement {type(s).__name__}: {src(s)[:80]}")
         for n in ast.walk(s):
-            if isinstance(n, (ast.Lambda, ast.FunctionDef, ast.AsyncFunctionDef, ast.Await, ast.Yield, ast.YieldFrom)) \
-                    and not isinstance(n, ast.Lambda):
+            if isinstance(n, (ast.FunctionDef, ast.AsyncFunctionDef, ast.Await, ast.Yield, ast.YieldFrom)):
                 raise TranslateError(where, f"nested definition / await in {src(s)[:80]}")
 
 
